@@ -110,3 +110,8 @@ impl WriteBackend for HotColdBackend {
         Ok(())
     }
 }
+
+// verification hook (guard: cfg(kani), set only by the Kani compiler): harnesses live in /verif/kani
+#[cfg(kani)]
+#[path = "/verif/kani/hotcold.rs"]
+mod verif_kani;
